@@ -395,6 +395,8 @@ impl Task {
 
     pub fn exec(self: &Arc<Self>, ctx: &Context) -> Result<()> {
         // let _lock = self.sync.lock().unwrap();
+        #[cfg(feature = "verif")]
+        let _verif_exec = crate::verif::exec_span(&self.pid, &self.id);
         debug!("exec task={:?}", ctx.task());
         if self.state().is_completed() {
             return Err(ActError::Runtime(format!(
